@@ -46,19 +46,18 @@ class CaseTimeout(BaseException):
     stacks = ()
 
 
-_TL = {"first": None, "half": 0}
+_TL = {"stacks": [], "deadline": 0.0}
 
 
 def _alarm(signum, frame):
-    # two samples of the stack, half the limit apart: the frames common to both contain the loop that does not terminate
-    st = [(f.filename, f.name) for f in traceback.extract_stack(frame)]
-    if _TL["first"] is None:
-        _TL["first"] = st
-        signal.alarm(max(1, _TL["half"]))
-        return
-    e = CaseTimeout()
-    e.stacks = (_TL["first"], st)
-    raise e
+    # many samples of the stack during the second half of the limit: the frames common to all of them contain the
+    # loop that does not terminate (callees differ from sample to sample)
+    _TL["stacks"].append([(f.filename, f.name) for f in traceback.extract_stack(frame)])
+    if time.time() >= _TL["deadline"]:
+        signal.setitimer(signal.ITIMER_REAL, 0)
+        e = CaseTimeout()
+        e.stacks = tuple(_TL["stacks"])
+        raise e
 
 
 class time_limit:
@@ -68,15 +67,15 @@ class time_limit:
         self.seconds = seconds
 
     def __enter__(self):
-        _TL["first"] = None
-        _TL["half"] = self.seconds - self.seconds // 2
+        _TL["stacks"] = []
+        _TL["deadline"] = time.time() + self.seconds
         self.old = signal.signal(signal.SIGALRM, _alarm)
-        signal.alarm(max(1, self.seconds // 2))
+        signal.setitimer(signal.ITIMER_REAL, self.seconds / 2.0, 1.7)
 
     def __exit__(self, *a):
-        signal.alarm(0)
+        signal.setitimer(signal.ITIMER_REAL, 0)
         signal.signal(signal.SIGALRM, self.old)
-        _TL["first"] = None
+        _TL["stacks"] = []
         return False
 
 
